@@ -279,7 +279,8 @@ def leaf_anydata(out):
         raise Untranslatable('AnyData::maxSize not found')
 
     def atom_max(n):
-        if n.get('kind') == 'DeclRefExpr' and member_name(n) == 'maxSize_':
+        # the class template's own non-type parameter, whatever it is called
+        if n.get('kind') == 'DeclRefExpr' and (n.get('referencedDecl') or {}).get('kind') == 'NonTypeTemplateParmDecl':
             return 'maxSize_'
         if n.get('kind') == 'UnaryExprOrTypeTraitExpr' and n.get('name') == 'sizeof':
             at = n.get('argType') or {}
@@ -330,10 +331,12 @@ def leaf_anydata(out):
         if len(fi) != 1:
             raise Untranslatable('AnyData(T&&): functions is not initialised by one expression')
         ftxt = src_of(fi[0], src).replace(' ', '')
-        if nt == 'U *':
-            alias = [d for d in walk(body_of(k)) if d.get('kind') == 'TypeAliasDecl' and d.get('name') == 'U']
+        # the inline constructor builds an object of a local alias of remove_reference<T>::type (whatever the alias is called)
+        local_aliases = {d.get('name'): d for d in walk(body_of(k)) if d.get('kind') in ('TypeAliasDecl', 'TypedefDecl')}
+        if nt.endswith(' *') and nt[:-2] in local_aliases:
+            alias = [local_aliases[nt[:-2]]]
             if len(alias) != 1 or alias[0].get('type', {}).get('qualType') != 'typename std::remove_reference<%s>::type' % T:
-                raise Untranslatable('AnyData(T&&): U is not remove_reference<T>::type')
+                raise Untranslatable('AnyData(T&&): the constructed type is not remove_reference<T>::type')
             if not ftxt.endswith('getAnyDataFunctions<%s>()' % T):
                 raise Untranslatable('inline constructor records the table %s' % ftxt)
             which = 'inline'
@@ -461,7 +464,7 @@ def leaf_anydata(out):
         raise Untranslatable('~AnyData: body is not functions->free(buffer.data())')
 
     mc = members('CXXConstructorDecl', lambda n: any(x.get('kind') == 'CompoundStmt' for x in kids(n))
-                 and [p.get('type', {}).get('qualType') for p in kids(n) if p.get('kind') == 'ParmVarDecl'] == ['AnyData<maxSize_> &&'])
+                 and [bool(re.match(r'^AnyData<\w+> &&$', p.get('type', {}).get('qualType') or '')) for p in kids(n) if p.get('kind') == 'ParmVarDecl'] == [True])
     if len(mc) != 1:
         raise Untranslatable('AnyData(AnyData &&) not found')
     other = [p.get('name') for p in kids(mc[0]) if p.get('kind') == 'ParmVarDecl'][0]
